@@ -800,7 +800,7 @@ def programs_for(pid: str, tier: str) -> tuple[list[dict], list[dict]]:
 
 
 def mc_configs(pid: str, tier: str) -> list[dict]:
-    AS_CODE = {}
+    AS_CODE = {k: v for k, v in trace_consts().items() if k.startswith("Defect_")}    # all TRUE on the unchanged tree
     REPAIRED = {"Defect_SkipEventBeforeCommit": "FALSE", "Defect_ErrorPathNoEvent": "FALSE", "Defect_NoTaskCancelEvent": "FALSE"}
 
     def c(name, progs, cr, rb, fo, ca, sk, extra=None, info=False):
@@ -819,7 +819,7 @@ def mc_configs(pid: str, tier: str) -> list[dict]:
                     c("c13-s1t1-all2-repaired", ["s1t1"], 2, 1, 1, 1, 1, REPAIRED),
                     c("c13-s1t2-ascode", ["s1t2"], 1, 1, 1, 1, 1),
                     c("c13-s1t2-cr2rb2", ["s1t2"], 2, 2, 0, 0, 0),
-                    c("c13-s2t21-ascode", ["s2t21"], 1, 1, 0, 0, 0),
+                    c("c13-s2t21-crash", ["s2t21"], 1, 0, 0, 0, 0),
                     c("c13-s2cof-ascode", ["s2cof"], 1, 1, 0, 1, 1),
                     c("c13-s1t2-repaired", ["s1t2"], 1, 1, 1, 1, 1, REPAIRED),
                     c("c13-s2t11-repaired", ["s2t11"], 1, 1, 0, 1, 1, REPAIRED)]
@@ -831,7 +831,8 @@ def mc_configs(pid: str, tier: str) -> list[dict]:
         out += [c("c12-s2t11-force", ["s2t11"], 0, 0, 1, 1, 1),
                 c("c12-s2t21-ascode", ["s2t21"], 0, 0, 0, 1, 1),
                 c("c12-s2cof-ascode", ["s2cof"], 0, 0, 1, 0, 1),
-                c("c12-s2t21-repaired", ["s2t21"], 0, 0, 1, 1, 1, REPAIRED),
+                c("c12-s2t21-repaired", ["s2t21"], 0, 0, 0, 1, 1, REPAIRED),
+                c("c12-s2t11-force-repaired", ["s2t11"], 0, 0, 1, 0, 1, REPAIRED),
                 # beyond the quantifier of C12 (one worker's delivery schedules): two workers
                 c("c12-s1t1-2workers", ["s1t1"], 0, 0, 0, 1, 0, {"Workers": '{"w1", "w2"}'}, info=True)]
     return out
@@ -869,13 +870,17 @@ def trace_jobs(pid: str, tier: str, seed: int, refs: dict[str, dict], core_: lis
         m = refs[p["name"]]["meta"]
         pts = list(range(1, m["commits"] + 1))
         if not thorough:
-            # quick: every commit made inside a handler, every 3rd of the pure stutters between handlers
+            # quick: every commit made inside a handler, every 6th of the pure stutters between handlers
             # (poll / post-mark / ack: neither statuses nor the events table change); thorough: every commit
             inside = {e["n"] for e in refs[p["name"]]["events"] if e["e"] == "commit"}
-            pts = [k for k in pts if k in inside or k % 3 == seed % 3]
+            pts = [k for k in pts if k in inside or k % 6 == seed % 6]
         for grp in chunks(pts, 10):
             jobs.append({"kind": "fifo", "prog": p, "faults": [{"crash_at": k} for k in grp]})
-        for grp in chunks(range(1, m["appends"] + 1), 10):
+        apps = [e for e in refs[p["name"]]["events"] if e["e"] == "append"]
+        # kill right after the k-th INSERT INTO events: thorough every k; quick the appends made INSIDE a
+        # transaction (mid-transaction kill) - after an out-of-transaction append it equals a crash_at point
+        ks = [k for k, e in enumerate(apps, start=1) if thorough or e["intx"]]
+        for grp in chunks(ks, 10):
             jobs.append({"kind": "fifo", "prog": p, "faults": [{"crash_after_append": k} for k in grp]})
         fl = [{"exc_after_append": [k, kind]} for k in range(1, m["appends_txn"] + 1) for kind in ("perm", "transient")]
         fl += [{"cas_conflict": k} for k in range(1, m["cas_points"] + 1)]
